@@ -11,10 +11,17 @@ PROP = dict(
           "strings over {space,+,-,0,1,8,f,x,e,.}; float literals over {1,5,.,e,-,+,space,0} plus inf/nan/hex-float specials; every "
           "subset of read handles before assert_none_unused for all lists of <= 3 (quick) / 4 (thorough) tokens) plus rapidcheck-generated "
           "token lists from a richer grammar, command lines with mixed quoting, numerals and float literals with garbage. "
+          "seq: sequences of getter calls on ONE object (what a getter answers is a function of the token list and the getter alone, so each call "
+          "must answer as on a fresh object): every ordered pair of {10 getter forms: get_multi<string/int32/double>, get<string> with/without flag, "
+          "get<bool>, get<int32>/get<double> with/without default} x {every supplied name, 3 names not supplied, every positional index up to 2 "
+          "past the end} plus assert_none_unused on 7 token lists, every ordered triple of the getter forms on an absent name / an index past the "
+          "end, and rapidcheck sequences of 1..10 calls (all 8 integer types, 4 formats) on generated token lists, against the classifier, the "
+          "numeral/float references and a three-state used-flag model (a value whose conversion failed may or may not count as read). "
           "Non-trivial: a token list that mixes named and positional arguments, a command line with quoting and >= 2 tokens, a numeral within 2 of "
           "a type boundary (or of 2^64 - 2^k) or with garbage, a float text with a fraction/exponent or garbage, every absent-argument case, a "
-          "used-subset case with >= 2 handles and a non-empty read set. Distinct = distinct case encodings (hash)."),
-    assumptions=["no NUL bytes in tokens or command lines; no stand-alone empty quoted token on a command line (DESIGN section 6 item 5)",
+          "used-subset case with >= 2 handles and a non-empty read set, a getter sequence that addresses some name or index at least twice. Distinct = distinct case encodings (hash)."),
+    assumptions=["seq: a scalar getter addressed to an option that was given several times is executed as the get_multi of the same type (the statement does not say what a scalar getter does with a repeated option)",
+                 "no NUL bytes in tokens or command lines; no stand-alone empty quoted token on a command line (DESIGN section 6 item 5)",
                  "command lines use the quoting subset on which the POSIX shell and phosg agree (no backslash inside '...'; inside \"...\" a backslash only before \" \\ $ `)",
                  "a complete numeral is what strtoull/strtod accept (leading blanks and '+' included, DESIGN section 6 item 7); 0b-prefixed texts are excluded for IntFormat::DEFAULT",
                  "64-bit targets: only numerals of magnitude < 2^63 have an asserted result; beyond that returning or invalid_argument are both accepted",
